@@ -27,7 +27,12 @@ OPTSETS = [[], ["-Cf"], ["-CF"], ["-Ce"], ["-Cm"], ["-Cem"], ["-Ca"], ["-C"], ["
            ["-I"], ["-B"], ["-l"], ["-X"], ["-s"], ["-d"], ["-p", "-p"], ["-v"], ["-L"], ["-+"],
            ["--reentrant"], ["--bison-bridge"], ["--bison-locations"], ["--yylineno"], ["--stack"],
            ["--array"], ["--emit=c99"], ["--emit=nr"], ["--emit=r"], ["-P", "zz"], ["--yyclass=Foo"],
-           ["-w"], ["--noline"], ["--main"], ["--nodefault"], ["--read"], ["-f"], ["-F"], ["-b"]]
+           ["-w"], ["--noline"], ["--main"], ["--nodefault"], ["--read"], ["-f"], ["-F"], ["-b"],
+           ["-T"], ["-T", "-v"], ["--emit=go"], ["-n"], ["--posix"], ["--lex-compat"], ["--nounistd"],
+           ["--never-interactive"], ["--always-interactive"], ["--stdinit"], ["--yymore"], ["--reject"],
+           ["--extra-type=struct foo *"], ["--yylmax=100", "--array"], ["--bufsize=64"],
+           ["--yydecl=int scan(void)"], ["--yyterminate=return -1"], ["--noyyalloc"], ["--noyyread"],
+           ["--tables-verify"], ["--debug", "--perf-report", "--verbose"]]
 
 PATH_RE = re.compile(r"^(.+?):(\d+): ")
 
